@@ -1009,8 +1009,9 @@ func ruleResultsPerClient(c *Ctx) {
 			}
 		}
 	}
-	c.floor(rule, "result matchers whose result list was traced", sites, 100)
-	if sites >= 100 {
+	// (anti-vacuity only: 121 on the unchanged tree; wrapping the matcher in a helper lowers the count)
+	c.floor(rule, "result matchers whose result list was traced", sites, 40)
+	if sites >= 40 {
 		c.ok(rule, "compliance", "result lists", "-", fmt.Sprintf("%d HasResult/HasResultsCache calls read one client's results (no accumulated list)", sites))
 	}
 }
